@@ -17,6 +17,7 @@ from props import PROPS  # noqa: E402
 def sh(cmd, cwd=None, timeout=3600, env=None, stdin=None, stdout=None):
     e = dict(os.environ)
     e["CARGO_NET_OFFLINE"] = "true"
+    e.setdefault("MIMALLOC_PURGE_DELAY", "-1")   # kernel `decide` churns memory; page faults are slow in this VM
     if env:
         e.update(env)
     t0 = time.time()
